@@ -18,6 +18,8 @@ pub trait RecGlue: 'static {
     fn mutate(&mut self, datum: usize, seed: u64);
     /// Moves the record to the stack, runs `f` on it there, moves it back.
     fn with_stack(&mut self, f: &mut dyn FnMut(&mut dyn RecGlue));
+    /// Moves the record to an address aligned for its type and no more, runs `f`, moves it back.
+    fn with_min_aligned(&mut self, f: &mut dyn FnMut(&mut dyn RecGlue));
     fn rebox(self: Box<Self>) -> Box<dyn RecGlue>;
     fn unpack_dyn(self: Box<Self>) -> Outs;
     /// Converts to the next variant (form 0..3 = simple/full, simple/uninit, and-out/full, and-out/uninit).
@@ -108,5 +110,33 @@ pub fn via_stack<R: RecGlue>(r: &mut R, f: &mut dyn FnMut(&mut dyn RecGlue)) {
         f(&mut tmp);
         std::mem::forget(guard);
         std::ptr::write(r, tmp);
+    }
+}
+
+/// Moves a value to a heap address that is aligned to exactly `align_of::<R>()` (and not to the
+/// next power of two, when that is below 64), runs `f`, moves it back.
+pub fn via_min_aligned<R: RecGlue>(r: &mut R, f: &mut dyn FnMut(&mut dyn RecGlue)) {
+    struct Abort;
+    impl Drop for Abort {
+        fn drop(&mut self) {
+            std::process::abort();
+        }
+    }
+    let align = std::mem::align_of::<R>();
+    let size = std::mem::size_of::<R>();
+    let skew = if align < 64 { align } else { 0 };
+    let layout = std::alloc::Layout::from_size_align(size + skew + 64, 64.max(align)).expect("layout");
+    unsafe {
+        let base = std::alloc::alloc(layout);
+        if base.is_null() {
+            std::process::abort();
+        }
+        let slot = base.add(skew) as *mut R;
+        std::ptr::write(slot, std::ptr::read(r));
+        let guard = Abort;
+        f(&mut *slot);
+        std::mem::forget(guard);
+        std::ptr::write(r, std::ptr::read(slot));
+        std::alloc::dealloc(base, layout);
     }
 }
